@@ -122,7 +122,11 @@ func Type(t *rapid.T, o TypeOpts, depth int) spec.TypeSpec {
 	case "slice":
 		return spec.Slice(Type(t, o, depth+1))
 	case "map":
-		return spec.Map(Type(t, o, depth+1))
+		m := spec.Map(Type(t, o, depth+1))
+		if Uniform(t, "namedKey", 6) == 0 {
+			m.Key = "nstr" // a defined string type as key: still a string-keyed map
+		}
+		return m
 	case "ptr":
 		return spec.Ptr(Type(t, o, depth+1))
 	}
